@@ -209,6 +209,14 @@ func (f *folder) evalInstr(env map[ssa.Value]fval, mem map[*ssa.Alloc]fval, in s
 		env[x] = foldBinOp(x.Op, f.val(env, x.X), f.val(env, x.Y), x.Type())
 	case *ssa.Alloc:
 		env[x] = fval{addr: &faddr{base: x}}
+		// a fresh variable holds the zero value of its type
+		if pt, ok := x.Type().Underlying().(*types.Pointer); ok {
+			if z := zeroFval(pt.Elem()); z.known() {
+				mem[x] = z
+			} else {
+				delete(mem, x)
+			}
+		}
 	case *ssa.Store:
 		if a := f.val(env, x.Addr); a.addr != nil && len(a.addr.path) == 0 {
 			mem[a.addr.base] = f.val(env, x.Val)
@@ -393,6 +401,31 @@ func (f *folder) evalInstr(env map[ssa.Value]fval, mem map[*ssa.Alloc]fval, in s
 	case *ssa.Lookup:
 		env[x] = foldLookup(x, f.val(env, x.X), f.val(env, x.Index))
 	case *ssa.Slice:
+		// a sub-slice of an immutable list with constant bounds
+		if l, ok := f.val(env, x.X).cv.(*ListV); ok && x.Max == nil {
+			lo, hi := int64(0), int64(len(l.Elems))
+			okB := true
+			if x.Low != nil {
+				if v := f.val(env, x.Low); v.k != nil && v.k.Kind() == constant.Int {
+					lo, _ = constant.Int64Val(v.k)
+				} else {
+					okB = false
+				}
+			}
+			if x.High != nil {
+				if v := f.val(env, x.High); v.k != nil && v.k.Kind() == constant.Int {
+					hi, _ = constant.Int64Val(v.k)
+				} else {
+					okB = false
+				}
+			}
+			if okB && 0 <= lo && lo <= hi && hi <= int64(len(l.Elems)) {
+				env[x] = fval{cv: &ListV{T: x.Type(), Elems: l.Elems[lo:hi]}, t: x.Type()}
+				return
+			}
+			env[x] = top
+			return
+		}
 		// the whole of a local array whose elements are all known constants (a variadic argument list): an immutable list
 		if a := f.val(env, x.X); a.addr != nil && len(a.addr.path) == 0 && x.Low == nil && x.High == nil && x.Max == nil {
 			if pt, ok := a.addr.base.Type().Underlying().(*types.Pointer); ok {
